@@ -24,7 +24,7 @@ var apiNames = map[string]bool{
 	"vAssume": true, "vAssert": true, "vCover": true, "vObserve": true, "vObserveInt": true, "vFail": true,
 	"vIsSymbolic": true, "vEqStr": true, "vUint64": true, "vMapOrder": true, "vSteps": true,
 	"vfsReset": true, "vfsWriteFile": true, "vfsMkdir": true, "vfsDangling": true, "vfsCwd": true, "vfsUnreadable": true,
-	"vFreeze": true, "vSharedWrites": true, "vNative": true, "vParam": true,
+	"vFreeze": true, "vSharedWrites": true, "vSharedAtomicConflicts": true, "vNative": true, "vParam": true,
 }
 
 func (in *Interp) classify(fn *ssa.Function, fi *fnInfo) {
@@ -149,6 +149,8 @@ func (in *Interp) callAPI(caller *frame, api string, fn *ssa.Function, args []Va
 		return nil
 	case "vSharedWrites":
 		return int64(len(in.sharedWrites))
+	case "vSharedAtomicConflicts":
+		return int64(len(in.atomicConflicts()))
 	}
 	panic("unknown harness API " + api)
 }
@@ -613,7 +615,9 @@ func atomicLoad(in *Interp, caller *frame, fn *ssa.Function, args []Value) Value
 
 func atomicStore(in *Interp, caller *frame, fn *ssa.Function, args []Value) Value {
 	in.syncUse(fn.Name())
+	in.inAtomic = true
 	in.storePtr(args[0], args[1])
+	in.inAtomic = false
 	return nil
 }
 
@@ -622,7 +626,9 @@ func atomicAdd(ii intInfo) intrinsicFn {
 		in.syncUse(fn.Name())
 		old := in.loadPtr(args[0])
 		nv := in.intBinop(tokenADD, ii, nil, old, args[1])
+		in.inAtomic = true
 		in.storePtr(args[0], nv)
+		in.inAtomic = false
 		return nv
 	}
 }
@@ -631,7 +637,9 @@ func atomicCAS(in *Interp, caller *frame, fn *ssa.Function, args []Value) Value 
 	in.syncUse(fn.Name())
 	old := in.loadPtr(args[0])
 	if in.branchVal(in.equals(nil, old, args[1])) {
+		in.inAtomic = true
 		in.storePtr(args[0], args[2])
+		in.inAtomic = false
 		return true
 	}
 	return false
